@@ -1,5 +1,6 @@
 import ErbiumModel.Model.Radv
 import ErbiumModel.Spec.RaRfc
+import ErbiumModel.Lemmas.RaCodec
 /-! # C17 — router advertisements carry exactly the configured values in RFC format -/
 namespace Erbium.Props.C17
 open Erbium Erbium.Radv
@@ -188,5 +189,46 @@ def exIntf : Intf :=
 example : RaRfc.decode (serialise (build exTop exIntf (some [2, 0, 0, 0, 0, 1]) (some 1500) 0xfe800000000000000000000000000001 1800))
     = some (RaRfc.expected exTop exIntf (some [2, 0, 0, 0, 0, 1]) (some 1500) 0xfe800000000000000000000000000001 1800) := by
   decide +kernel
+
+open Erbium.RaCodec in
+/-- **C17 (the general statement).** For every top-level and interface configuration, link-layer address, MTU, own
+    address and default lifetime that the wire format can carry (`CfgOK`: hop limit below 256, a 6-octet link-layer
+    address, prefix lengths ≤ 128 and 128-bit addresses, at most 127 DNS servers, search domains whose labels have
+    1..63 octets and fit one option, a captive-portal URL without NUL that fits one option) — and for *any* lifetimes,
+    reachable/retransmit times, flags, number of prefixes, NAT64 prefix length — the advertisement the builder makes,
+    serialised, is decoded by the decoder written from RFC 4861/8106/8781/8910 to **exactly the documented values**
+    (`RaRfc.expected`: top-level settings as defaults, `null` suppressing an option, `$self6` replaced, values too
+    large for their field clamped, prefix bits beyond the length zero). -/
+theorem C17_decode_is_documented (top : Top) (i : Intf) (ll : Option Bytes) (mtu : Option Nat) (self6 dl : Nat)
+    (h : CfgOK top i ll mtu self6) :
+    RaRfc.decode (serialise (build top i ll mtu self6 dl)) = some (RaRfc.expected top i ll mtu self6 dl) := by
+  rw [decode_serialise _ h.hop (cfgok_options h dl), specRa_build _ _ _ _ _ _ (fun p hp => (h.prefixes p hp).1)]
+
+open Erbium.RaCodec in
+/-- the same for any advertisement, however it was built: serialise, then decode by the RFCs, gives its values -/
+theorem C17_decode_serialise (a : Advert) (hh : a.hopLimit < 256) (ho : ∀ o ∈ a.options, OptOK o) :
+    RaRfc.decode (serialise a) = some (specRa a) := decode_serialise a hh ho
+
+open Erbium.RaCodec in
+/-- the example configuration below meets the hypotheses of the general statement -/
+example : CfgOK exTop exIntf (some [2, 0, 0, 0, 0, 1]) (some 1500) 0xfe800000000000000000000000000001 where
+  hop := by decide
+  ll := by intro m hm; cases hm; rfl
+  mtu := by intro m hm; cases hm; decide
+  prefixes := by decide
+  servers := by
+    intro v hv
+    have : v = [0xfe800000000000000000000000000001] := by
+      simp [exIntf, exTop, Tri.unwrapOr] at hv; exact hv.symm
+    subst this; decide
+  domains := by
+    intro v hv
+    have : v = [[108, 97, 110]] := by simp [exIntf, exTop, Tri.unwrapOr] at hv; exact hv.symm
+    subst this
+    refine ⟨?_, by decide⟩
+    intro d hd; simp at hd; subst hd
+    unfold DomainOK; decide
+  pref64 := by intro lt p l h; simp [exIntf] at h; obtain ⟨_, rfl, _⟩ := h; decide
+  url := by intro u h; simp [exIntf, Tri.orOpt] at h
 
 end Erbium.Props.C17
